@@ -29,7 +29,9 @@ PROPS["C06"] = {
 PROPS["C02"] = {
     "title": "Verdicts follow the documented rule language",
     "models": lambda tier: [],
-    "gens": lambda tier: [{"topic": "lang", "n": q(tier, 1500, 30000)}],
+    "gens": lambda tier: [{"topic": "lang", "n": q(tier, 1500, 30000)}, {"topic": "str", "n": q(tier, 300, 6000)},
+                          {"topic": "quant", "n": q(tier, 200, 4000)}, {"topic": "num", "n": q(tier, 150, 3000)},
+                          {"topic": "path", "n": q(tier, 150, 3000)}],
     "rules": ["oracle", "tri_oracle", "tri_both", "load_outcome", "load_panic", "match_panic"],
     "chunk": 1500,
 }
@@ -43,9 +45,9 @@ PROPS["C05"] = {
          "invariants": ["PrattIsRef", "RoundTrip", "Emit"],
          "forms": ["accepted", "rejected"], "workers": 8},
     ],
-    "gens": lambda tier: [],
-    "rules": ["oracle", "load_outcome", "load_panic", "match_panic"],
-    "chunk": 400,
+    "gens": lambda tier: [{"topic": "cond", "n": q(tier, 1500, 30000)}, {"topic": "condfuzz", "n": q(tier, 1000, 20000)}],
+    "rules": ["oracle", "load_outcome", "load_panic", "match_panic", "ref_tree"],
+    "chunk": 500,
 }
 
 PROPS["C01"] = {
@@ -149,6 +151,8 @@ PROPS["C10"] = {
     "models": lambda tier: [
         {"module": "MC_Path", "constants": {"Depth": q(tier, 1, 2), "PathLen": q(tier, 3, 2), "Dev": DEV_PATH},
          "invariants": ["WalkIsFind", "IdealWalkIsFind", "Emit"], "forms": ["doc"], "workers": 8},
+        {"module": "MC_Nest", "constants": {"MaxArr": q(tier, 2, 3)},
+         "invariants": ["DottedLaw", "ArrayLaw", "Emit"], "forms": ["nested_obj", "nested_arr"], "workers": 4},
     ],
     "gens": lambda tier: [{"topic": "path", "n": q(tier, 500, 10000)}],
     "rules": ["find_value", "find_panic", "oracle", "tri_oracle", "match_panic"],
